@@ -104,7 +104,8 @@ def _clustered(rng, dim, tol, nclus, tier, f4=False):
         for k in range(nclus):
             u = _direction(rng, dim)
             # radii differ by a few tol: that is where the norm pre-clustering decides
-            delta = rng.choice([rng.uniform(-3, 3), rng.uniform(-1.3, 1.3), rng.choice([-1, 1]) * rng.uniform(0.7, 1.3), 0.0]) * tol
+            span = 3 if dim > 1 else max(3, 2 * nclus)  # a line has little room: spread the radii further
+            delta = rng.choice([rng.uniform(-span, span), rng.uniform(-span, span), rng.uniform(-1.3, 1.3), rng.choice([-1, 1]) * rng.uniform(0.7, 1.3), 0.0]) * tol
             r = R + delta if R > 0 else abs(delta) + rng.uniform(0, 4) * tol
             centres.append([r * x for x in u])
         cols, labels = [], []
